@@ -2,6 +2,8 @@
 
 from __future__ import annotations
 
+import functools
+
 from types import SimpleNamespace
 from typing import Any, Callable, ClassVar, Final, TypeAlias
 
@@ -249,6 +251,10 @@ dot_batch_rule: Callable[..., object] | None = batching.fancy_primitive_batchers
     jax.lax.dot_general_p
 )
 if dot_batch_rule is not None:
-    batching.fancy_primitive_batchers[ScaledDotGeneralPlugin._PRIM] = dot_batch_rule
+    # lax.dot_general's rule also expects the two parameters this primitive does
+    # not carry; supply their neutral values.
+    batching.fancy_primitive_batchers[ScaledDotGeneralPlugin._PRIM] = functools.partial(
+        dot_batch_rule, precision=None, out_sharding=None
+    )
 
 register_jvp_via_jax_jvp(ScaledDotGeneralPlugin._PRIM, _scaled_dot_general_impl)
